@@ -20,6 +20,47 @@ CHECKS = {
             "exhaustive small domain plus random dyadic inputs, and the statement itself is evaluated as an oracle on the real objects.",
             TB + "IEEE products of the small dyadic test inputs are exact (model uses Rat); CPython tuple comparison/slicing modelled in Core/Py.lean.",
             "Lean 4 proof over a hand-written model + differential correspondence + oracle"),
+    "C02": ("full",
+            "Lean theorems C02.varAnd_/varOr_{count, parents_unchanged, inputs_unchanged, fresh, not_input, distinct, touched_invalid, "
+            "untouched/reproduced_is_clone, valid_is_parent_copy, isSome} + decodeAnd/decodeOr hold for every population (repeated objects "
+            "included), every decision tape and every mate/mutate pair meeting the explicit operator contract (returns what it was given, "
+            "writes nothing else); model Core/Variation.lean replays the recorded draws (IEEE branch op_choice<cxpb) and is diffed against the "
+            "real varAnd/varOr on list/array/ndarray/tree representations; the statement (snapshots, aliasing walk, fitness validity) is an oracle "
+            "on the real objects.",
+            TB + "the operator contract is an explicit hypothesis (checked on every recorded call; proved for the operator models in C09/C11); "
+            "toolbox.clone = copy.deepcopy (C16); GP node objects are immutable symbols.",
+            "Lean 4 proof over a hand-written heap model + tape-replay differential correspondence + oracle"),
+    "C09": ("full",
+            "Lean theorems C09.{onepoint,twopoint,uniform,messy}_multiset, *_locus, *_lengths, uniform(R)_exact, es_pairs(+_multiset,_locus,_lengths), "
+            "pmx_perm, upmx_perm, ox_perm (aliased in-place model), shuffle_perm, inversion_perm(+_exact), flip_exact/complement/length, "
+            "uniform_int_bounds(+_scalar,_seq,_total), in_place1/2/_es hold for every gene list, every length and every draw inside the ranges of "
+            "randint/sample/randrange/random; model Core/CrossMut.lean is diffed against deap.tools under forced tapes (all permutation pairs n<=4 x "
+            "all draws, all cut points, all decision vectors) and recorded tapes (n<=12, list/array/numpy), statement evaluated as oracle on the real objects.",
+            TB + "CPython list/array item+slice assignment and tuple-assignment order as transcribed; random functions return values in their "
+            "documented ranges; parents are distinct objects; numpy only for element-wise operators.",
+            "Lean 4 proof over a hand-written model + tape-replay differential correspondence + oracle"),
+    "C19": ("full",
+            "Lean theorems C19.feasible_passthrough_delta/closest, delta_no_call, delta_formula(+_no_distance), delta_length, closest_calls, "
+            "closest_formula, closest_length, closest_size_mismatch, never_better_delta/closest, monotone_in_distance_delta/closest hold over every "
+            "linearly ordered field, every weight vector (sign 0 treated as the code does), scalar or per-objective constants and absent/scalar/vector "
+            "distances, including the call log of the wrapped function; model Core/Penalty.lean is diffed against DeltaPenalty/ClosestValidPenalty on all "
+            "sign patterns for 1-4 objectives with dyadic values and args/kwargs passthrough; the statement is an oracle on the real decorators.",
+            TB + "IEEE arithmetic on the dyadic test inputs is exact (model uses Rat).",
+            "Lean 4 proof over a hand-written model + differential correspondence + oracle"),
+    "C10": ("partial",
+            "Lean theorems over the reals (C10.blend_sum/esblend_sum/sbx_sum, blend_range/esblend_range, sbx_welldefined, "
+            "sbxb_welldefined + sbxb_bounds + sbxb_unclamped, poly_welldefined + poly_bounds + poly_unclamped, gauss_len, gauss_indpb0, "
+            "lognormal_len/_indpb0/_pos/_welldefined, *_in_place, *_runs) hold for every length, gene, bound (scalar or per gene), eta, alpha, "
+            "indpb and every tape of draws: children sums and blend range, every / and ** of bounded SBX and polynomial mutation applied "
+            "inside its real domain with the result inside the bounds even before the clamp, identity for indpb = 0, positive strategies "
+            "stay positive, same objects and lengths returned. Core/RealOps.lean keeps the Python operation order; its Float instance "
+            "replays the real operators draw by draw (tolerance 1e-9) on a boundary-draw grid plus random inputs, and the statement is "
+            "evaluated on the real results (isfinite, not complex, bounds exact, sums within rounding tolerance, strategies > 0).",
+            TB + "partial because the theorems are about exact reals: IEEE rounding, overflow, underflow (exp underflow can zero a strategy "
+            "for c >= ~61 or subnormal strategies, outside the stated domain), NaN propagation through min/max and Python's "
+            "OverflowError/ZeroDivisionError/complex pow are searched for by the oracle, not proved absent; libm agreement CPython/Lean Float; "
+            "random.gauss(mu,sigma)=mu+z*sigma; the two individuals of a crossover are distinct objects.",
+            "Lean 4 proof over a RealLike-polymorphic model + forced-tape differential correspondence (Float) + oracle"),
 }
 
 NOT_YET = {}
